@@ -518,7 +518,11 @@ var PowFunc = function.New(&function.Spec{
 			return cty.UnknownVal(cty.String), err
 		}
 
-		return cty.NumberFloatVal(math.Pow(num, power)), nil
+		result := math.Pow(num, power)
+		if math.IsNaN(result) {
+			return cty.UnknownVal(cty.Number), fmt.Errorf("%s raised to the power %s is not a number", args[0].AsBigFloat().String(), args[1].AsBigFloat().String())
+		}
+		return cty.NumberFloatVal(result), nil
 	},
 })
 
